@@ -34,6 +34,39 @@ def _grad_calls(node):
     return [c for c in ast.walk(node) if isinstance(c, ast.Call) and attr_chain(c.func) == "torch.autograd.grad"]
 
 
+def _op_paths(fi):
+    """non-raising paths of an operator, loop-carried locals symbolic (phi)"""
+    return [p for p in paths(fi.node, phi=True) if p.ret is not RAISE]
+
+
+def _all_values(p):
+    out = [e.value for e in p.events if e.value is not None]
+    out += list(p.phi_next.values())
+    if p.ret is not None:
+        out.append(p.ret)
+    return out
+
+
+def _parents(root):
+    par = {}
+    for n in ast.walk(root):
+        for c in ast.iter_child_nodes(n):
+            par[id(c)] = n
+    return par
+
+
+def _full_sum(e):
+    """torch.sum(X) with no axis -> X (canonical form of X.sum())"""
+    if isinstance(e, ast.Call) and attr_chain(e.func) == "torch.sum" and len(e.args) == 1 and not e.keywords:
+        return e.args[0]
+    return None
+
+
+def _over_varargs(p, name, vararg):
+    it = p.loopvars.get(name)
+    return it is not None and vararg is not None and any(isinstance(n, ast.Name) and n.id == vararg for n in ast.walk(it))
+
+
 def r1_call_discipline(repo: Repo, rep):
     R = rep.rule("R-C03-1", "every torch.autograd.grad differentiates a scalar obtained by .sum() of a value derived from the operator's input, w.r.t. the loop's variable, "
                  "with create_graph=True, taking result [0]", floor=6,
@@ -45,176 +78,247 @@ def r1_call_discipline(repo: Repo, rep):
             raise AnalysisError(f"operator {name} vanished")
         rep.saw(fi)
         vararg = fi.node.args.vararg.arg if fi.node.args.vararg else None
-        for c in _grad_calls(fi.node):
-            out = c.args[0] if c.args else kwarg(c, "outputs")
-            inp = c.args[1] if len(c.args) > 1 else kwarg(c, "inputs")
-            cg = kwarg(c, "create_graph")
-            scalar = isinstance(out, ast.Call) and isinstance(out.func, ast.Attribute) and out.func.attr == "sum" and not out.args and not out.keywords
-            rep.check(R, scalar, fi.site(c), fi.fq, "differentiated quantity is `<tensor>.sum()` (full reduction)", dump(out)[:80], dump(out)[:80])
-            rep.check(R, cg is not None and dump(cg) == "True", fi.site(c), fi.fq, "create_graph=True", f"create_graph={dump(cg)}", f"create_graph={dump(cg)}")
-            # the variable is the loop variable over the *variables argument
-            loopvars = set()
-            for l in ast.walk(fi.node):
-                if isinstance(l, ast.For) and vararg and any(isinstance(n, ast.Name) and n.id == vararg for n in ast.walk(l.iter)):
-                    loopvars |= {n.id for n in ast.walk(l.target) if isinstance(n, ast.Name)}
-            rep.check(R, inp is not None and dump(inp) in loopvars, fi.site(c), fi.fq, f"differentiation w.r.t. the current element of *{vararg}", dump(inp), dump(inp))
-            par = _parent(fi.node, c)
-            rep.check(R, isinstance(par, ast.Subscript) and dump(par.slice) == "0", fi.site(c), fi.fq, "the gradient w.r.t. that variable is taken ([0])", dump(par)[:60] if par is not None else "", "result index")
-
-
-def _parent(root, target):
-    for n in ast.walk(root):
-        for c in ast.iter_child_nodes(n):
-            if c is target:
-                return n
-    return None
+        seen = set()
+        for p in _op_paths(fi):
+            for v in _all_values(p):
+                par = _parents(v)
+                for c in _grad_calls(v):
+                    key = def_id(c) or dump(c)
+                    if key in seen:
+                        continue
+                    seen.add(key)
+                    out = c.args[0] if c.args else kwarg(c, "outputs")
+                    inp = c.args[1] if len(c.args) > 1 else kwarg(c, "inputs")
+                    cg = kwarg(c, "create_graph")
+                    rep.check(R, out is not None and _full_sum(out) is not None, fi.site(c), fi.fq, "differentiated quantity is `<tensor>.sum()` (full reduction)", dump(out)[:80], dump(out)[:80])
+                    rep.check(R, cg is not None and dump(cg) == "True", fi.site(c), fi.fq, "create_graph=True", f"create_graph={dump(cg)}", f"create_graph={dump(cg)}")
+                    ok = isinstance(inp, ast.Name) and _over_varargs(p, inp.id, vararg)
+                    rep.check(R, ok, fi.site(c), fi.fq, f"differentiation w.r.t. the current element of *{vararg}", dump(inp), dump(inp))
+                    pa = par.get(id(c))
+                    rep.check(R, isinstance(pa, ast.Subscript) and pa.value is c and dump(pa.slice) == "0", fi.site(c), fi.fq, "the gradient w.r.t. that variable is taken ([0])",
+                              dump(pa)[:60] if pa is not None else "", "result index")
 
 
 def _narrow(e: ast.AST):
-    """x.narrow(-1, K, 1) / x[..., K:K+1] / x[:, K] -> (base text, index expr)"""
+    """x.narrow(-1, K, 1) / x[..., K:K+1] / x[:, K] / x[:, K:K+1] -> (base text, axis text, index expr, base node)"""
     if isinstance(e, ast.Call) and isinstance(e.func, ast.Attribute) and e.func.attr == "narrow" and len(e.args) == 3 and dump(e.args[2]) == "1":
-        return dump(e.func.value), dump(e.args[0]), e.args[1]
+        return dump(e.func.value), dump(e.args[0]), e.args[1], e.func.value
     if isinstance(e, ast.Subscript) and isinstance(e.slice, ast.Tuple) and len(e.slice.elts) >= 2 and not getattr(e, "_tuple_elt", False):
         elts = e.slice.elts
         last = elts[-1]
-        if isinstance(last, ast.Slice) and last.lower is not None and last.upper is not None:
-            return dump(e.value), "-1", last.lower
+        if isinstance(last, ast.Slice) and last.lower is not None and last.upper is not None and last.step is None:
+            try:
+                if to_rf(last.upper, _name_atom) - to_rf(last.lower, _name_atom) != RF.const(1):
+                    return None
+            except NotPoly:
+                return None
+            return dump(e.value), "-1", last.lower, e.value
         if not isinstance(last, ast.Slice):
-            return dump(e.value), "-1", last
+            return dump(e.value), "-1", last, e.value
+    return None
+
+
+def _name_atom(n):
+    if isinstance(n, ast.Name):
+        return RF.atom(n.id)
+    if isinstance(n, (ast.Attribute, ast.Subscript, ast.Call)):
+        return RF.atom(dump(n).replace(" ", ""))
+    return None
+
+
+def _dim_of(v: str):
+    return {f"{v}.shape[-1]", f"{v}.size(-1)", f"{v}.shape[1]", f"{v}.size(1)", f"{v}.size()[-1]"}
+
+
+def _component_loop(p, i: str, v: str) -> bool:
+    it = p.loopvars.get(i)
+    return it is not None and isinstance(it, ast.Call) and attr_chain(it.func) == "range" and len(it.args) == 1 and dump(it.args[0]).replace(" ", "") in _dim_of(v)
+
+
+def _split_sum(e, sym):
+    """e == sym + T or T + sym -> T"""
+    if isinstance(e, ast.BinOp) and isinstance(e.op, ast.Add):
+        if isinstance(e.left, ast.Name) and e.left.id == sym:
+            return e.right
+        if isinstance(e.right, ast.Name) and e.right.id == sym:
+            return e.left
     return None
 
 
 def r2_pairing(repo: Repo, rep):
     R = rep.rule("R-C03-2", "component pairing: div differentiates output component offset+i and adds gradient component i, the offset advancing by the variable's "
-                 "dimension; laplacian differentiates and accumulates the same component i for every variable; jac: rows over output components, columns over variables in call order",
+                 "dimension; laplacian differentiates and accumulates the same component i for every variable, re-using a supplied gradient only for a single variable; "
+                 "jac: rows over output components, columns over variables in call order",
                  floor=6, why="a wrong offset differentiates the wrong output component as soon as a third variable (or a vector variable) is passed")
     m = repo.module(MOD)
-    # ---- div
+    # ---- div: recurrences of the loop-carried locals
     fi = m.functions.get("div")
     rep.saw(fi)
     va = fi.node.args.vararg.arg
-    outer = [l for l in ast.walk(fi.node) if isinstance(l, ast.For) and dump(l.iter) == va]
-    zipped = [l for l in ast.walk(fi.node) if isinstance(l, ast.For) and isinstance(l.iter, ast.Call) and attr_chain(l.iter.func) == "zip"
-              and any(dump(a) == va for a in l.iter.args) and isinstance(l.target, ast.Tuple)]
-    if len(outer) != 1 and len(zipped) == 1:
-        _div_precomputed_offsets(repo, rep, R, fi, zipped[0], va)
-    elif len(outer) != 1:
-        rep.undecided(R, fi.site(), fi.fq, f"one loop over *{va}", f"{len(outer)}")
-    else:
-        ol = outer[0]
-        v = dump(ol.target)
-        inner = [l for l in ol.body if isinstance(l, ast.For)]
-        gcs = _grad_calls(ol)
-        if len(inner) == 1 and len(gcs) == 1 and dump(inner[0].iter).replace(" ", "") == f"range({v}.shape[-1])":
-            i = dump(inner[0].target)
-            out = gcs[0].args[0].func.value if isinstance(gcs[0].args[0], ast.Call) and isinstance(gcs[0].args[0].func, ast.Attribute) else None
-            nr = _narrow(out) if out is not None else None
-            offs = None
-            if nr is not None and nr[0] == fi.params[0]:
-                def atom(n, i=i):
-                    if isinstance(n, ast.Name):
-                        return RF.atom(n.id)
-                    return None
-                try:
-                    idx = to_rf(nr[2], atom)
-                    offs = idx - RF.atom(i)
-                    ok = len(offs.atoms()) == 1 and i not in offs.atoms()
-                    rep.check(R, ok and nr[1] == "-1", fi.site(gcs[0]), fi.fq, "differentiated output component = offset + i (last axis)", f"index {idx!r}", f"index {idx!r}")
-                except NotPoly as e:
-                    rep.undecided(R, fi.site(gcs[0]), fi.fq, "affine output index", str(e))
-            else:
-                rep.violation(R, fi.site(gcs[0]), fi.fq, "a single output component is differentiated per (variable, i)", dump(gcs[0].args[0])[:80], dump(gcs[0].args[0])[:80])
-            # accumulated gradient component
-            accs = [n for n in ast.walk(inner[0]) if isinstance(n, (ast.Assign, ast.AugAssign))]
-            comp_ok = False
-            for a in accs:
-                val = a.value
-                for sub in ast.walk(val):
-                    nr2 = _narrow(sub)
-                    if nr2 is not None and nr2[2] is not None and dump(nr2[2]) == i and nr2[1] == "-1":
-                        comp_ok = True
-            rep.check(R, comp_ok, fi.site(inner[0]), fi.fq, "gradient component i (last axis) is accumulated", "no `.narrow(-1, i, 1)` of the gradient", "gradient component")
-            # offset advance
-            if offs is not None and len(offs.atoms()) == 1:
-                off = list(offs.atoms())[0]
-                adv = [s for s in ol.body if isinstance(s, (ast.AugAssign, ast.Assign)) and dump(s.targets[0] if isinstance(s, ast.Assign) else s.target) == off]
-                good = False
-                detail = "offset never advanced"
-                if len(adv) == 1 and ol.body.index(adv[0]) > ol.body.index(inner[0]):
-                    a = adv[0]
-                    step = dump(a.value).replace(" ", "") if isinstance(a, ast.AugAssign) and isinstance(a.op, ast.Add) else None
-                    if isinstance(a, ast.Assign):
-                        t = dump(a.value).replace(" ", "")
-                        step = t[len(off) + 1:] if t.startswith(off + "+") else None
-                    detail = f"{off} advances by {step}"
-                    good = step in (f"{v}.shape[-1]", f"{i}+1", f"1+{i}", f"{v}.size(-1)")
-                elif len(adv) == 1:
-                    detail = "offset advanced before the component loop"
-                rep.check(R, good, fi.site(adv[0]) if adv else fi.site(ol), fi.fq, "offset += dimension of the variable, once per variable, after its components",
-                          detail, detail)
+    mo = fi.params[0]
+    decided = False
+    for p in _op_paths(fi):
+        cand = [(n, _split_sum(nx, n)) for n, nx in p.phi_next.items()]
+        cand = [(n, t) for n, t in cand if t is not None and _grad_calls(t)]
+        if not cand:
+            continue
+        decided = True
+        acc, term = cand[0]
+        nr2 = _narrow(term)
+        gcs = _grad_calls(term)
+        g = gcs[0]
+        wrt = g.args[1] if len(g.args) > 1 else kwarg(g, "inputs")
+        v = dump(wrt)
+        comp_i = dump(nr2[2]) if nr2 is not None else None
+        ok_comp = nr2 is not None and nr2[1] in ("-1", "1") and comp_i is not None and _component_loop(p, comp_i, v)
+        rep.check(R, ok_comp, fi.site(g), fi.fq, "gradient component i (last axis) is accumulated, i over range(variable dimension)", f"accumulated term {dump(term)[-80:]}", "gradient component")
+        inner = _full_sum(g.args[0]) if g.args else None
+        nr = _narrow(inner) if inner is not None else None
+        if nr is None or nr[0] != mo or nr[1] not in ("-1", "1"):
+            rep.violation(R, fi.site(g), fi.fq, "a single output component (last axis) is differentiated per (variable, i)", dump(g.args[0])[:80] if g.args else "", "differentiated component")
+            continue
+        try:
+            idx = to_rf(nr[2], _name_atom)
+        except NotPoly as e:
+            rep.undecided(R, fi.site(g), fi.fq, "affine output index", str(e))
+            continue
+        i = comp_i if ok_comp else None
+        if i is None:
+            continue
+        offs = idx - RF.atom(i)
+        atoms = offs.atoms()
+        if i in atoms or len(atoms) != 1 or offs != RF.atom(list(atoms)[0]):
+            rep.violation(R, fi.site(g), fi.fq, "differentiated output component = offset + i (last axis)", f"index {idx!r}", f"index {idx!r}")
+            continue
+        rep.ok(R, fi.site(g), fi.fq, "differentiated output component = offset + i (last axis)", f"index {idx!r}")
+        off = list(atoms)[0]
+        if off in p.phi_next:
+            init = p.phi.get(off)
+            rep.check(R, init is not None and dump(init) == "0", fi.site(g), fi.fq, "offset starts at 0", f"{off} = {dump(init)}", f"offset init {dump(init)}")
+            try:
+                def atom(n, v=v, i=i):
+                    if dump(n).replace(" ", "") in _dim_of(v):
+                        return RF.atom("D")
+                    if isinstance(n, ast.Name) and n.id == i:
+                        return RF.atom("D") - RF.const(1)  # after the component loop its variable holds the last index D - 1
+                    return _name_atom(n)
+                step = to_rf(p.phi_next[off], atom) - RF.atom(off)
+                good = step == RF.atom("D")
+                detail = f"{off} advances by {dump(p.phi_next[off])} (= {off} + {step!r} with D the variable's dimension)"
+            except NotPoly as e:
+                good, detail = False, f"step not affine: {e}"
+            # the update must happen once per variable (outer loop), not once per component
+            upd = [e for e in p.events if e.kind in ("aug", "eval") and isinstance(e.node, (ast.AugAssign, ast.Assign)) and dump(e.node.target if isinstance(e.node, ast.AugAssign) else e.node.targets[0]) == off and e.loop >= 1]
+            depth = {e.loop for e in upd}
+            good = good and depth == {1}
+            if depth and depth != {1}:
+                detail += f"; updated at loop depth {sorted(depth)}"
+            order_ok = True
+            if upd:
+                first_g = [k for k, e in enumerate(p.events) if e.value is not None and _grad_calls(e.value)]
+                order_ok = not first_g or p.events.index(upd[0]) > first_g[0]
+                if not order_ok:
+                    detail += "; advanced before the component loop"
+            rep.check(R, good and order_ok, fi.site(upd[0].node) if upd else fi.site(), fi.fq, "offset += dimension of the variable, once per variable, after its components", detail, detail)
+        elif off in p.loopvars:
+            _div_precomputed_offsets(repo, rep, R, fi, p, off, va)
         else:
-            rep.undecided(R, fi.site(ol), fi.fq, "component loop `for i in range(vari.shape[-1])` with one autograd call", "idiom not recognised")
+            rep.violation(R, fi.site(g), fi.fq, "the offset is a running sum of the dimensions of the preceding variables", f"offset `{off}` is neither loop-carried nor a loop variable", f"offset {off}")
+    if not decided:
+        rep.undecided(R, fi.site(), fi.fq, "an accumulator with recurrence acc + <gradient component>", "idiom not recognised")
     # ---- laplacian
     fi = m.functions.get("laplacian")
     rep.saw(fi)
     va = fi.node.args.vararg.arg
-    outer = [l for l in ast.walk(fi.node) if isinstance(l, ast.For) and dump(l.iter) == va]
-    if len(outer) != 1:
-        rep.undecided(R, fi.site(), fi.fq, f"one loop over *{va}", f"{len(outer)}")
-    else:
-        ol = outer[0]
-        v = dump(ol.target)
-        inner = [l for l in ast.walk(ol) if isinstance(l, ast.For) and l is not ol]
-        if len(inner) == 1 and dump(inner[0].iter).replace(" ", "") == f"range({v}.shape[-1])":
-            i = dump(inner[0].target)
-            gcs = _grad_calls(inner[0])
-            good = False
-            if len(gcs) == 1:
-                out = gcs[0].args[0].func.value if isinstance(gcs[0].args[0], ast.Call) and isinstance(gcs[0].args[0].func, ast.Attribute) else None
-                nr = _narrow(out) if out is not None else None
-                acc = [n for n in ast.walk(inner[0]) if isinstance(n, (ast.AugAssign, ast.Assign)) and any(_narrow(s) is not None for s in ast.walk(n.value))]
-                acc_idx = [dump(_narrow(s)[2]) for a in acc for s in ast.walk(a.value) if _narrow(s) is not None and not dump(s) == dump(out)]
-                good = nr is not None and dump(nr[2]) == i and nr[1] == "-1" and acc_idx and all(x == i for x in acc_idx)
-                detail = f"differentiated component {dump(nr[2]) if nr else None}, accumulated {acc_idx}"
-            else:
-                detail = f"{len(gcs)} second-derivative calls"
-            rep.check(R, good, fi.site(inner[0]), fi.fq, "second derivative of gradient component i, component i of it accumulated", detail, detail)
-        else:
-            rep.undecided(R, fi.site(ol), fi.fq, "component loop over the variable's dimension", "idiom not recognised")
-        exits = [type(s).__name__ for s in ast.walk(ol) if isinstance(s, (ast.Return, ast.Break))]
-        rep.check(R, not exits, fi.site(ol), fi.fq, "every variable of the call contributes (no return/break inside the variable loop)", str(exits), str(exits))
+    mo = fi.params[0]
+    gparam = "grad" if "grad" in fi.params else None
+    decided = False
+    for p in _op_paths(fi):
+        cand = [(n, _split_sum(nx, n)) for n, nx in p.phi_next.items()]
+        cand = [(n, t) for n, t in cand if t is not None and _grad_calls(t)]
+        if not cand:
+            continue
+        decided = True
+        acc, term = cand[0]
+        nr2 = _narrow(term)
+        outer = nr2[3] if nr2 is not None else None
+        g2 = outer.value if isinstance(outer, ast.Subscript) and isinstance(outer.value, ast.Call) and attr_chain(outer.value.func) == "torch.autograd.grad" else None
+        good, detail = False, f"term {dump(term)[-90:]}"
+        if g2 is not None:
+            v = dump(g2.args[1]) if len(g2.args) > 1 else dump(kwarg(g2, "inputs"))
+            inner = _full_sum(g2.args[0]) if g2.args else None
+            nr1 = _narrow(inner) if inner is not None else None
+            if nr1 is not None:
+                i1, i2 = dump(nr1[2]), dump(nr2[2])
+                good = i1 == i2 and _component_loop(p, i1, v) and nr1[1] in ("-1", "1") and nr2[1] in ("-1", "1")
+                detail = f"differentiated component {i1}, accumulated {i2}"
+                first = nr1[3]
+                fresh = isinstance(first, ast.Subscript) and isinstance(first.value, ast.Call) and attr_chain(first.value.func) == "torch.autograd.grad"
+                if fresh:
+                    g1 = first.value
+                    src = _full_sum(g1.args[0]) if g1.args else None
+                    w1 = dump(g1.args[1]) if len(g1.args) > 1 else dump(kwarg(g1, "inputs"))
+                    ok1 = src is not None and dump(src) == mo and w1 == v
+                    rep.check(R, ok1, fi.site(g1), fi.fq, "first derivative = grad(model_out.sum(), same variable)", f"{dump(g1)[:90]}", "first derivative")
+                elif gparam is not None and isinstance(first, ast.Name) and first.id == gparam:
+                    # the supplied gradient belongs to ONE variable: it may be re-used only when a single variable is passed
+                    single = any((_single_var_guard(gd, va) == pol) for gd, pol, k in p.guards if _single_var_guard(gd, va) is not None)
+                    rep.check(R, single, fi.site(g2), fi.fq, f"the supplied `{gparam}` is re-used only when exactly one variable is passed",
+                              f"guards {[(dump(gd)[:40], pol) for gd, pol, k in p.guards if k == 'if']}", "supplied gradient re-used for several variables")
+                else:
+                    good = False
+                    detail = f"first derivative is {dump(first)[:60]}"
+        rep.check(R, good, fi.site(g2) if g2 is not None else fi.site(), fi.fq, "second derivative of gradient component i, component i of it accumulated", detail, detail)
+    if not decided:
+        rep.undecided(R, fi.site(), fi.fq, "an accumulator with recurrence acc + <second-derivative component>", "idiom not recognised")
+    for l in ast.walk(fi.node):
+        if isinstance(l, ast.For) and any(isinstance(n, ast.Name) and n.id == va for n in ast.walk(l.iter)):
+            exits = [type(s_).__name__ for s_ in ast.walk(l) if isinstance(s_, (ast.Return, ast.Break))]
+            rep.check(R, not exits, fi.site(l), fi.fq, "every variable of the call contributes (no return/break inside the variable loop)", str(exits), str(exits))
     # ---- jac
     fi = m.functions.get("jac")
     rep.saw(fi)
     va = fi.node.args.vararg.arg
     mo = fi.params[0]
-    good = False
-    detail = ""
-    rows = [l for l in fi.node.body if isinstance(l, ast.For)]
-    if len(rows) == 1 and dump(rows[0].iter).replace(" ", "") in (f"range({mo}.shape[1])", f"range({mo}.shape[-1])"):
-        i = dump(rows[0].target)
-        cols = [l for l in rows[0].body if isinstance(l, ast.For)]
-        gcs = _grad_calls(rows[0])
-        if len(cols) == 1 and dump(cols[0].iter) == va and len(gcs) == 1:
-            out = gcs[0].args[0].func.value if isinstance(gcs[0].args[0], ast.Call) and isinstance(gcs[0].args[0].func, ast.Attribute) else None
-            nr = _narrow(out) if out is not None else None
-            good = nr is not None and nr[0] == mo and dump(nr[2]) == i
-            detail = f"row index {dump(nr[2]) if nr else None}"
-            # structure of the result: stack([cat([grad ...], dim=1)], dim=1) on the expanded return
-            for p in paths(fi.node):
-                if p.ret is RAISE or p.ret is None:
-                    continue
-                r = p.ret
-                ok_stack = isinstance(r, ast.Call) and attr_chain(r.func) == "torch.stack" and dump(kwarg(r, "dim", 1)) == "1" and isinstance(r.args[0], ast.List) and len(r.args[0].elts) == 1
-                if ok_stack:
-                    row = r.args[0].elts[0]
-                    ok_stack = isinstance(row, ast.Call) and attr_chain(row.func) in ("torch.cat", "torch.column_stack") and (attr_chain(row.func) == "torch.column_stack" or dump(kwarg(row, "dim", 1)) in ("1", "-1")) \
-                        and isinstance(row.args[0], ast.List) and len(row.args[0].elts) == 1 and "torch.autograd.grad(" in dump(row.args[0].elts[0])
-                good = good and ok_stack
-                if not ok_stack:
-                    detail += f"; result {dump(r)[:80]}"
-                break
-    rep.check(R, good, fi.site(), fi.fq, "J[:, i, :] = cat_v d(u_i)/dv (variables in call order), rows stacked on axis 1", detail or "idiom not recognised", detail or "jac")
+    n_ret = 0
+    for p in _op_paths(fi):
+        r = p.ret
+        if r is None:
+            continue
+        n_ret += 1
+        good, detail = False, dump(r)[:120]
+        if isinstance(r, ast.Call) and attr_chain(r.func) == "torch.stack" and dump(kwarg(r, "dim", 1)) == "1" and r.args and isinstance(r.args[0], ast.List) and len(r.args[0].elts) == 1:
+            row = r.args[0].elts[0]
+            rows_over = getattr(row, "_iter_of", None)
+            cat_ok = isinstance(row, ast.Call) and (attr_chain(row.func) == "torch.column_stack" or (attr_chain(row.func) == "torch.cat" and dump(kwarg(row, "dim", 1)) in ("1", "-1"))) \
+                and row.args and isinstance(row.args[0], ast.List) and len(row.args[0].elts) == 1
+            if cat_ok and rows_over and len(rows_over) == 1:
+                i = rows_over[0]
+                it = p.loopvars.get(i)
+                rows_ok = it is not None and dump(it).replace(" ", "") in (f"range({mo}.shape[1])", f"range({mo}.shape[-1])", f"range({mo}.size(1))", f"range({mo}.size(-1))")
+                col = row.args[0].elts[0]
+                cols_over = getattr(col, "_iter_of", None)
+                cols_ok = bool(cols_over) and len(cols_over) == 1 and _over_varargs(p, cols_over[0], va)
+                g = col.value if isinstance(col, ast.Subscript) and isinstance(col.value, ast.Call) and attr_chain(col.value.func) == "torch.autograd.grad" else None
+                comp_ok = False
+                if g is not None:
+                    inner = _full_sum(g.args[0]) if g.args else None
+                    nr = _narrow(inner) if inner is not None else None
+                    wrt = dump(g.args[1]) if len(g.args) > 1 else dump(kwarg(g, "inputs"))
+                    comp_ok = nr is not None and nr[0] == mo and dump(nr[2]) == i and cols_ok and wrt == cols_over[0]
+                good = rows_ok and cols_ok and comp_ok
+                detail = f"rows over {i} in {dump(it)}, columns over {cols_over}, component ok: {comp_ok}"
+        rep.check(R, good, fi.site(p.ret_node), fi.fq, "J[:, i, :] = cat_v d(u_i)/dv (variables in call order), rows stacked on axis 1", detail, detail)
+    if n_ret == 0:
+        rep.undecided(R, fi.site(), fi.fq, "a returning path", "none")
+
+
+def _single_var_guard(g, va):
+    """polarity under which `g` says `len(*va) == 1` (None: not such a guard)"""
+    t = dump(g).replace(" ", "")
+    L = f"len({va})"
+    table = {f"{L}>1": False, f"1<{L}": False, f"{L}>=2": False, f"2<={L}": False, f"{L}==1": True, f"1=={L}": True, f"{L}<2": True, f"2>{L}": True, f"{L}<=1": True, f"1>={L}": True}
+    return table.get(t)
 
 
 class _NoList(Exception):
@@ -276,15 +380,21 @@ def _sym_scalar(e, va, env, binding):
     raise _NoList(dump(e)[:60])
 
 
-def _div_precomputed_offsets(repo, rep, R, fi, loop, va):
+def _div_precomputed_offsets(repo, rep, R, fi, p, off_name, va):
     """for vari, off in zip(variables, OFFSETS): OFFSETS must be the exclusive cumulative sums of the dimensions"""
+    loops = [l for l in ast.walk(fi.node) if isinstance(l, ast.For) and isinstance(l.target, (ast.Tuple, ast.List)) and any(isinstance(t, ast.Name) and t.id == off_name for t in l.target.elts)
+             and isinstance(l.iter, ast.Call) and attr_chain(l.iter.func) == "zip"]
+    if len(loops) != 1:
+        rep.undecided(R, fi.site(), fi.fq, f"`{off_name}` is bound by one zip(variables, offsets) loop", f"{len(loops)} such loops")
+        return
+    loop = loops[0]
     names = [dump(t) for t in loop.target.elts]
     args = [dump(a) for a in loop.iter.args]
-    if len(names) != 2 or len(args) != 2:
+    if len(names) != 2 or len(args) != 2 or va not in args:
         rep.undecided(R, fi.site(loop), fi.fq, "zip(variables, offsets)", dump(loop.iter)[:80])
         return
     vi = args.index(va)
-    off_name, off_expr = names[1 - vi], loop.iter.args[1 - vi]
+    off_expr = loop.iter.args[1 - vi]
     env = {}
     for st in fi.node.body:
         if st is loop:
@@ -301,10 +411,6 @@ def _div_precomputed_offsets(repo, rep, R, fi, loop, va):
     ok = len(got) == 3 and all(isinstance(a, RF) and a == b for a, b in zip(got, want))
     rep.check(R, ok, fi.site(loop), fi.fq, "offsets of three variables of dimensions d0, d1, d2 are [0, d0, d0 + d1] (exclusive cumulative sums)",
               f"offsets = {got}", f"offsets = {got}")
-    # the component loop must still use offset + i
-    src = ast.unparse(loop).replace(" ", "")
-    rep.check(R, f"narrow(-1,{off_name}+i,1)" in src or f"narrow(-1,i+{off_name},1)" in src, fi.site(loop), fi.fq, "differentiated output component = offset + i", "pattern not found", "offset+i")
-    rep.ok(R, fi.site(loop), fi.fq, "gradient component i accumulated", "see component loop") if "narrow(-1,i,1)" in src else rep.violation(R, fi.site(loop), fi.fq, "gradient component i accumulated", "not found", "gradient component")
     rep.ok(R, fi.site(loop), fi.fq, "offsets precomputed (no running update needed)", "zip idiom")
 
 
@@ -371,13 +477,28 @@ def r3_tables(repo: Repo, rep):
     fi = m.functions.get("matrix_div")
     rep.saw(fi)
     mo = fi.params[0]
-    rows = [l for l in fi.node.body if isinstance(l, ast.For)]
-    ok = False
-    if len(rows) == 1 and dump(rows[0].iter).replace(" ", "") == f"range({mo}.shape[1])":
-        i = dump(rows[0].target)
-        src = ast.unparse(rows[0]).replace(" ", "")
-        ok = f"{mo}.narrow(1,{i},1).squeeze(1)" in src and f"[:,{i}:{i}+1]=div(" in src
-    rep.check(R, ok, fi.site(), fi.fq, "out[:, i] = div(row i of the matrix field)", "idiom not recognised" if not ok else "ok", "matrix_div")
+    va = fi.node.args.vararg.arg
+    n_ok = 0
+    for p in _op_paths(fi):
+        stores = [e for e in p.events if e.kind == "store" and e.raw is not None]
+        ok, detail = False, "no row store"
+        for e in stores:
+            nr = _narrow(e.raw) if isinstance(e.raw, ast.Subscript) else None
+            col = dump(nr[2]) if nr is not None else None
+            it = p.loopvars.get(col) if col else None
+            rows_ok = it is not None and dump(it).replace(" ", "") in (f"range({mo}.shape[1])", f"range({mo}.size(1))")
+            v = e.value
+            call_ok = isinstance(v, ast.Call) and attr_chain(v.func) == "div" and len(v.args) == 2 and isinstance(v.args[1], ast.Starred) and dump(v.args[1].value) == va
+            row_ok = False
+            if call_ok:
+                a0 = dump(v.args[0]).replace(" ", "")
+                row_ok = a0 in (f"{mo}.narrow(1,{col},1).squeeze(1)", f"{mo}[:,{col}]", f"{mo}[:,{col},:]", f"{mo}.select(1,{col})", f"{mo}.narrow(1,{col},1).squeeze(dim=1)")
+            ok = rows_ok and call_ok and row_ok
+            detail = f"{dump(e.raw)} = {dump(v)[:80]}"
+        n_ok += 1
+        rep.check(R, ok, fi.site(), fi.fq, "out[:, i] = div(row i of the matrix field)", detail, "matrix_div")
+    if n_ok == 0:
+        rep.undecided(R, fi.site(), fi.fq, "a returning path", "none")
     fi = m.functions.get("grad")
     rep.saw(fi)
     for p in paths(fi.node):
@@ -388,6 +509,14 @@ def r3_tables(repo: Repo, rep):
         rep.check(R, ok, fi.site(), fi.fq, "gradients of all variables concatenated column-wise in call order", t[:100], t[:100])
 
 
+def _inside_loop_over(fn, node, va) -> bool:
+    for l in ast.walk(fn):
+        if isinstance(l, ast.For) and any(isinstance(n, ast.Name) and n.id == va for n in ast.walk(l.iter)):
+            if any(n is node for n in ast.walk(l)):
+                return True
+    return False
+
+
 def r4_short_circuit(repo: Repo, rep):
     R = rep.rule("R-C03-4", "zero short-circuits: when the graph ends (grad_fn is None) only the affected contribution is zero: laplacian skips that variable, "
                  "partial returns zeros shaped like the variable", floor=2,
@@ -395,22 +524,31 @@ def r4_short_circuit(repo: Repo, rep):
     m = repo.module(MOD)
     fi = m.functions.get("laplacian")
     rep.saw(fi)
-    ifs = [n for n in ast.walk(fi.node) if isinstance(n, ast.If) and "grad_fn is None" in dump(n.test)]
-    if not ifs:
+    va = fi.node.args.vararg.arg
+    hit = 0
+    for p in _op_paths(fi):
+        if not any(pol and "grad_fn is None" in dump(g) for g, pol, k in p.guards):
+            continue
+        hit += 1
+        early = p.ret_node is not None and _inside_loop_over(fi.node, p.ret_node, va)
+        contributes = bool(p.phi_next) and any(_grad_calls(nx) and _split_sum(nx, n) is not None for n, nx in p.phi_next.items())
+        rep.check(R, not early and not contributes, fi.site(p.ret_node) if p.ret_node is not None else fi.site(), fi.fq, "a variable whose graph ended is skipped; the loop goes on with the next variable",
+                  "returns from inside the variable loop" if early else "still differentiates", "early return" if early else "no skip")
+    if hit == 0:
         rep.violation(R, fi.site(), fi.fq, "a vanished graph (variable the model is linear in) yields zero instead of an error", "no grad_fn test", "no short-circuit")
-    for n in ifs:
-        kinds = [type(s).__name__ for s in n.body]
-        rep.check(R, kinds == ["Continue"], fi.site(n), fi.fq, "`continue` with the next variable", str(kinds), str(kinds))
     fi = m.functions.get("partial")
     rep.saw(fi)
-    ifs = [n for n in ast.walk(fi.node) if isinstance(n, ast.If) and "grad_fn is None" in dump(n.test)]
-    if not ifs:
+    va = fi.node.args.vararg.arg
+    hit = 0
+    for p in _op_paths(fi):
+        if not any(pol and "grad_fn is None" in dump(g) for g, pol, k in p.guards):
+            continue
+        hit += 1
+        r = p.ret
+        ok = isinstance(r, ast.Call) and attr_chain(r.func) == "torch.zeros_like" and r.args and isinstance(r.args[0], ast.Name) and _over_varargs(p, r.args[0].id, va)
+        rep.check(R, ok, fi.site(p.ret_node) if p.ret_node is not None else fi.site(), fi.fq, "returns zeros shaped like the current variable (all further derivatives of 0 are 0)", dump(r)[:80], dump(r)[:80])
+    if hit == 0:
         rep.violation(R, fi.site(), fi.fq, "a vanished graph yields zero instead of an error", "no grad_fn test", "no short-circuit")
-    for n in ifs:
-        ok = len(n.body) == 1 and isinstance(n.body[0], ast.Return) and dump(n.body[0].value) in ("torch.zeros_like(inp)",)
-        loopv = [dump(l.target) for l in ast.walk(fi.node) if isinstance(l, ast.For)]
-        ok = ok or (len(n.body) == 1 and isinstance(n.body[0], ast.Return) and any(dump(n.body[0].value) == f"torch.zeros_like({v})" for v in loopv))
-        rep.check(R, ok, fi.site(n), fi.fq, "returns zeros shaped like the current variable (all further derivatives of 0 are 0)", dump(n.body[0])[:80], dump(n.body[0])[:80])
 
 
 def r5_accumulators(repo: Repo, rep):
